@@ -316,7 +316,15 @@ def r15_5(run):
                            message='%s yields _await_descriptor_upload(...) directly: it would wait for uploads before creating the service' % u.short)
 
 
+def r15_6(run):
+    us = [run.idx.unit(MOD + '._await_descriptor_upload'), run.idx.unit(MOD + '._add_ephemeral_service'), run.idx.unit(MOD + '.FilesystemOnionService.create'),
+          run.idx.unit(MOD + '.FilesystemAuthenticatedOnionService.create'), run.idx.unit(MOD + '.EphemeralOnionService.create'), run.idx.unit(MOD + '.EphemeralAuthenticatedOnionService.create')]
+    k = dropped_deferreds(run, 'R15.6', us, 'onion service creation')
+    run.floor('R15.6', 'suspension points in the creation coroutines', k, 12)
+
+
 RULES = [
+    ('R15.6', 'no dropped Deferred in the creation coroutines (subscribe / command / wait / unsubscribe are all awaited)', r15_6),
     ('R15.1', 'guard agreement across legs: every mutation/fire in hs_desc is behind hostname_matches(event address); field positions per control-spec 4.1.25', r15_1),
     ('R15.2', 'every fire of the wait is under "not uploaded.called"; fired only by the handler', r15_2),
     ('R15.3', 'CFG with exception edges at yields: the HS_DESC subscription is removed on the success and on the failure continuation of the wait', r15_3),
@@ -327,6 +335,7 @@ RULES = [
 from ..selftest import M  # noqa: E402
 F = 'txtorcon/onion.py'
 MUTANTS = [
+    M('subscribe-not-awaited', F, "    yield tor_protocol.add_event_listener('HS_DESC', hs_desc)\n    try:", "    tor_protocol.add_event_listener('HS_DESC', hs_desc)\n    try:", ['R15.6']),
     M('failed-leg-unguarded', F, "        elif subtype == 'FAILED':\n            if hostname_matches('{}.onion'.format(args[1])):\n                failed_uploads.add(args[3])", "        elif subtype == 'FAILED':\n            if True:\n                failed_uploads.add(args[3])", ['R15.1']),
     M('upload-leg-unguarded', F, "        if subtype == 'UPLOAD':\n            if hostname_matches('{}.onion'.format(args[1])):", "        if subtype == 'UPLOAD':\n            if True:", ['R15.1']),
     M('matcher-wrong-field', F, "            if hostname_matches('{}.onion'.format(args[1])):\n                failed_uploads.add(args[3])", "            if hostname_matches('{}.onion'.format(args[2])):\n                failed_uploads.add(args[3])", ['R15.1']),
